@@ -5,7 +5,7 @@ event_model contract (A-EVENTMODEL):
   compose_run(uid, event_counters, metadata) -> start doc {uid, time, **metadata}; compose_descriptor / compose_stop bound to it
   compose_descriptor(name, data_keys, ...): doc {run_start = start uid, uid (given or fresh), name, data_keys, ...};
         raises if the name was composed before with other data keys; new name => event_counters[name] = 1
-  compose_event(data, timestamps, filled): seq_num = event_counters[name]; doc {uid fresh, descriptor = descriptor uid,
+  compose_event(data, timestamps, filled): seq_num = event_counters[name] (KeyError if the counter was removed); doc {uid fresh, descriptor = descriptor uid,
         seq_num, data, timestamps, filled}; raises if the key sets differ from the descriptor's (STREAM: keys aside);
         then event_counters[name] = seq_num + 1              (the dict is shared with RunBundler._sequence_counters)
         compose_event also accepts seq_num= (and uid=, time=): a caller-supplied seq_num REPLACES the counter value and the counter
